@@ -40,7 +40,10 @@ def configs(draw):
          "construct_under_no_grad": draw(st.sampled_from([False, False, True])),
          "peek": draw(st.sampled_from([0, 0, 1, 2])), "cb_sets_eval": draw(st.booleans()),
          "custom_metric": draw(st.booleans()), "no_accuracy": draw(st.sampled_from([False, False, True])),
-         "test_under_no_grad": draw(st.booleans())}
+         "test_under_no_grad": draw(st.booleans()),
+         # what is handed to fit/test: the library's DataLoader, or any sized iterable of batches (a plain list whose
+         # batches differ in size - the last one short, as with drop_last=False loaders)
+         "loader_kind": draw(st.sampled_from(["DataLoader", "DataLoader", "list_unequal"]))}
     return c
 
 
@@ -69,8 +72,18 @@ def check_fit(c, rec):
     opt = sg.optim.SGD(params, lr=0.05, momentum=0.5) if c["opt"] == "sgd" else sg.optim.Adam(params, lr=0.01)
     bns = [m for m in model.submodules() if isinstance(m, nn.BatchNorm1d)]
 
+    unequal = c.get("loader_kind") == "list_unequal"
+    n_samples = {}
+
     def make_loader(nb):
-        n = nb * c["bs"] + (c["extra"] % c["bs"])
+        sizes = [c["bs"]] * nb
+        if unequal:
+            sizes = [max(2, c["bs"] + d) for d in ([0, 3, -2, 1] * nb)[:nb]]
+            if nb == 1:
+                sizes = [c["bs"]]
+            n = sum(sizes)
+        else:
+            n = nb * c["bs"] + (c["extra"] % c["bs"])
         X = rng.randn(n, fin).astype(np.float32)
         if task in ("mse", "bce_logits"):
             y = rng.randint(0, 2, size=n).astype(np.float32)
@@ -82,7 +95,15 @@ def check_fit(c, rec):
         class T(data_mod.DataLoaderCallback):
             def __call__(self, loader, Xb, yb):
                 return Tensor(np.array(Xb)), Tensor(np.array(yb))
-        return data_mod.DataLoader(X, y, c["bs"], transform=T())
+        if unequal:
+            ld, lo = [], 0
+            for sz in sizes:
+                ld.append((Tensor(X[lo:lo + sz].copy()), Tensor(y[lo:lo + sz].copy())))
+                lo += sz
+        else:
+            ld = data_mod.DataLoader(X, y, c["bs"], transform=T())
+        n_samples[id(ld)] = sum(sizes)
+        return ld
 
     train_loader = make_loader(c["nbatch"])
     val_loader = make_loader(c["val"]) if c["val"] else None
@@ -97,6 +118,8 @@ def check_fit(c, rec):
         evaluator = train_mod.Evaluator(mode=ev_mode, accuracy=with_acc, epoch_callback=epoch_metric if custom else None)
     has_both = c["bn"] and c["dropout"]
     rec.nontrivial(c["epochs"] >= 2 and bool(c["val"]) and has_both)
+    if unequal and c["nbatch"] > 1:
+        rec.tag("list_loader_with_unequal_batches")
     rec.tag(task, "val" if c["val"] else "no_val", "evaluator" if c["evaluator"] else "no_evaluator", f"epochs{c['epochs']}")
     ctx = f"config={c}"
 
@@ -316,7 +339,7 @@ def check_fit(c, rec):
             raise Violation("test_changed_state", f"test() changed parameters or running statistics; {ctx}")
         if tracking_on() != mode_before:
             raise Violation("grad_mode_leaked", f"global gradient mode after test() differs from before; {ctx}")
-        if len(y_pred) != len(test_loader) * c["bs"] or len(y_true) != len(y_pred):
+        if len(y_pred) != n_samples[id(test_loader)] or len(y_true) != len(y_pred):
             raise Violation("test_output", f"test() returned {len(y_pred)} predictions / {len(y_true)} labels; {ctx}")
 
 
